@@ -241,7 +241,9 @@ def gen_history(r, tier):
         h.query((q[0], q[1], pr, n2))
     # motif 2: egress allowed, ingress evaluation fails (a selector apimachinery rejects): the error must not turn into a cached verdict
     if r.random() < 0.3:
-        ns = r.choice(h.nss)
+        # in a namespace of its own: with a second policy selecting the same pod the answer (error or verdict) would depend on the
+        # order in which Go iterates the policy map, which no history-independence check can pin down
+        ns = 'nse'
         src = {'kind': 'Pod', 'ns': ns, 'name': 'esrc', 'labels': {'app': 'a'}, 'ports': [], 'replicas': None, 'owner': {'name': 'own-esrc', 'kind': 'ReplicaSet'}}
         dst = {'kind': 'Pod', 'ns': ns, 'name': 'edst', 'labels': {'app': 'e'}, 'ports': [], 'replicas': None, 'owner': {'name': 'own-edst', 'kind': 'ReplicaSet'}}
         h.ins_pod(src); h.ins_pod(dst)
